@@ -2,34 +2,31 @@
 From Coq Require Import List Arith ZArith QArith Lia Bool Setoid Morphisms Permutation Lqa FinFun.
 Import ListNotations.
 Local Open Scope Q_scope.
-From DS Require Import Util.SumQ Spec.Shapley Proofs.ShapleyAxioms.
+From DS Require Import Util.SumQ Spec.Shapley Spec.NNGame Model.Kernel Proofs.ShapleyAxioms.
 
 Section NN.
 Variable u : nat -> Q.
 Variable null : Q.
 
-Definition hd_u (l : list nat) : Q := match l with [] => null | q :: _ => u q end.
 
-Fixpoint vnn (l : list nat) (m : list bool) : Q :=
-  match l with [] => null | q :: t => if nth q m false then u q else vnn t m end.
 
 (* D prefix l m = sum over positions of l of (u_k - u_{k+1}) * OR_{prefix ++ l[..k]}(m) *)
 Fixpoint D (prefix l : list nat) (m : list bool) : Q :=
   match l with
   | [] => 0
-  | q :: t => (u q - hd_u t) * org (prefix ++ [q]) m + D (prefix ++ [q]) t m
+  | q :: t => (u q - hd_u u null t) * org (prefix ++ [q]) m + D (prefix ++ [q]) t m
   end.
 
 Lemma org_app_present P q m : existsb (fun p => nth p m false) P = true -> org (P ++ [q]) m = 1.
 Proof. intros H. unfold org. rewrite existsb_app, H. reflexivity. Qed.
 
-Lemma D_present : forall l P m, existsb (fun p => nth p m false) P = true -> D P l m == hd_u l - null.
+Lemma D_present : forall l P m, existsb (fun p => nth p m false) P = true -> D P l m == hd_u u null l - null.
 Proof.
   induction l as [|q t IH]; intros P m HP; cbn [D hd_u]; [ring|].
   rewrite org_app_present by exact HP. rewrite IH; [ring|]. rewrite existsb_app, HP. reflexivity.
 Qed.
 
-Lemma D_absent : forall l P m, existsb (fun p => nth p m false) P = false -> D P l m == vnn l m - null.
+Lemma D_absent : forall l P m, existsb (fun p => nth p m false) P = false -> D P l m == vnn u null l m - null.
 Proof.
   induction l as [|q t IH]; intros P m HP; cbn [D vnn]; [ring|].
   unfold org at 1. rewrite existsb_app, HP. cbn [existsb orb]. rewrite orb_false_r.
@@ -38,7 +35,7 @@ Proof.
   - rewrite IH; [ring|]. rewrite existsb_app, HP. cbn [existsb]. rewrite Eq. reflexivity.
 Qed.
 
-Theorem nn_game_decomposition l m : vnn l m == null + D [] l m.
+Theorem nn_game_decomposition l m : vnn u null l m == null + D [] l m.
 Proof. rewrite D_absent by reflexivity. ring. Qed.
 End NN.
 
@@ -102,17 +99,11 @@ Variable u : nat -> Q.
 Variable null : Q.
 
 (* the kernel's backward recurrence, written front to back: curs pos l = [cur_pos; cur_{pos+1}; ...] *)
-Definition hd0 (l : list Q) : Q := match l with [] => 0 | c :: _ => c end.
-Fixpoint curs (pos : nat) (l : list nat) : list Q :=
-  match l with
-  | [] => []
-  | q :: t => let tl := curs (S pos) t in (hd0 tl + (u q - hd_u u null t) / qn (S pos)) :: tl
-  end.
 
 Lemma memb_app_r p P q : memb p (P ++ [q]) = memb p P || Nat.eqb p q.
 Proof. unfold memb. rewrite existsb_app. cbn [existsb]. rewrite orb_false_r. reflexivity. Qed.
 
-Lemma DS_in : forall l P p, memb p P = true -> DS u null P l p == hd0 (curs (length P) l).
+Lemma DS_in : forall l P p, memb p P = true -> DS u null P l p == hd0 (curs u null (length P) l).
 Proof.
   induction l as [|q t IH]; intros P p Hp; cbn [DS curs hd0]; [reflexivity|].
   assert (Hp' : memb p (P ++ [q]) = true) by (rewrite memb_app_r, Hp; reflexivity).
@@ -122,7 +113,7 @@ Proof.
 Qed.
 
 Lemma DS_out : forall l P p i, memb p P = false -> NoDup l -> nth_error l i = Some p ->
-  DS u null P l p == nth i (curs (length P) l) 0.
+  DS u null P l p == nth i (curs u null (length P) l) 0.
 Proof.
   induction l as [|q t IH]; intros P p i Hp Hnd Hi; [destruct i; discriminate|].
   inversion Hnd as [|? ? Hq Hnd']; subst. cbn [DS curs]. destruct i as [|i]; cbn [nth_error nth] in *.
@@ -139,7 +130,7 @@ Qed.
 
 Theorem kernel_is_shapley n idxs i p : NoDup idxs -> (forall r, In r idxs -> (r < n)%nat) ->
   nth_error idxs i = Some p ->
-  nth i (curs 0 idxs) 0 == shapley_bf n (vnn u null idxs) p.
+  nth i (curs u null 0 idxs) 0 == shapley_bf n (vnn u null idxs) p.
 Proof.
   intros Hnd Hlt Hi. assert (Hp : (p < n)%nat) by (apply Hlt; apply nth_error_In in Hi; exact Hi).
   rewrite (shapley_vnn n u null idxs p Hnd Hlt Hp). symmetry. apply (DS_out idxs [] p i); auto.
